@@ -661,3 +661,91 @@ def hr_results(repo, tier="quick"):
         first = _hr_job(shapes[0])
         _HR[key] = [first] + parallel_map(_hr_job, shapes[1:])
     return _HR[key]
+
+
+# ------------------------------------------------------------------------------------------------ failing parse, then another
+def failure_pairs():
+    """(name, rejected script, later script).  The rejected script fails inside one command; the later script
+    reuses its names with other sorts / meanings."""
+    good_x = "(declare-fun x () Real)(assert (> x 0.5))(check-sat)"
+    return [
+        ("declare-fun extra token", "(declare-fun x () Int Int)", good_x),
+        ("declare-fun truncated", "(declare-fun x () Int", good_x),
+        ("declare-fun bad sort", "(declare-fun x () Foo)", good_x),
+        ("declare-const extra token", "(declare-const x Int Int)", good_x),
+        ("function signature extra token", "(declare-fun f (Int) Int extra)",
+         "(declare-fun f (Real) Real)(assert (> (f 1.0) 0.5))"),
+        ("define-fun ill-typed body", "(define-fun g ((p Int)) Int (and p p))",
+         "(define-fun g ((p Real)) Real (+ p 1.0))(declare-fun r () Real)(assert (= (g r) r))"),
+        ("define-fun truncated", "(define-fun g ((p Int)) Int (+ p",
+         "(declare-fun p () Bool)(define-fun g ((q Bool)) Bool (and p q))(assert (g p))"),
+        ("let truncated", "(declare-fun a () Bool)(assert (let ((t a)) (and t",
+         "(declare-fun t () Int)(declare-fun a () Bool)(assert (and a (< t 1)))"),
+        ("quantifier truncated", "(declare-fun a () Bool)(assert (forall ((y Int)) (or a",
+         # (bound variables are environment-wide symbols in pySMT: y stays an Int symbol, by design)
+         "(declare-fun y () Int)(declare-fun a () Bool)(assert (or a (< y 1)))"),
+        ("unknown command", "(frobnicate 1 2)", good_x),
+        ("logic then failure", "(set-logic QF_LRA)(declare-fun z () Real Real)",
+         "(declare-fun i () Int)(assert (> i 1))"),
+    ]
+
+
+def _failure_job(job):
+    name, bad, good = job
+    from .c14_deep import ac_sig
+
+    def run(seq, reuse):
+        def call(w, it, f):
+            ps = w.new_walker(PARSER, w.env)
+            outs = []
+            for idx, text in enumerate(seq):
+                if idx and not reuse:
+                    ps = w.new_walker(PARSER, w.env)
+                try:
+                    script = it.call(it.getattr(ps, "get_script"), [it.call(ExtRef("io.StringIO"), [text])])
+                    cmds = _cmd_list(w, it, script)
+                    terms = [ac_sig(w, a[0]) for n_, a in cmds if n_ == "assert"]
+                    last = it.call(it.getattr(script, "get_last_formula"), [])
+                    outs.append(("ok", terms, ac_sig(w, last)))
+                except AbsRaise as ex:
+                    outs.append(("raise", ex.cls_name, None))
+            return outs
+        res = proc.run_proc(Shape(("lit", True, BOOL)), call, post=lambda w, f, v, facts: proc.ProcResult(None, "valid", v),
+                            services="full", interp_kwargs=BIG, max_paths=8, world_cls=TextWorld)
+        if len(res) != 1 or res[0].kind != "valid":
+            return None, "%s %s" % (res[0].kind, str(res[0].detail)[:200])
+        return res[0].detail, None
+    out = []
+    fresh, err = run([good], True)
+    if fresh is None:
+        return [(name, "?", "unsupported", err)]
+    for reuse in (True, False):
+        how = "same parser" if reuse else "new parser, same environment"
+        hist, err = run([bad, good], reuse)
+        if hist is None:
+            out.append((name, how, "unsupported", err))
+            continue
+        if hist[0][0] != "raise":
+            out.append((name, how, "unsupported", "the first script is not rejected"))
+            continue
+        if hist[1] != fresh[0]:
+            def show(r):
+                return "raises %s" % r[1] if r[0] == "raise" else "reads %s" % (str(r[1])[:160],)
+            out.append((name, how, "invalid", "after the rejected script %r the script %r %s; in a fresh environment it %s"
+                        % (bad, good, show(hist[1]), show(fresh[0]))))
+        else:
+            out.append((name, how, "valid", "same as in a fresh environment"))
+    return out
+
+
+_FAIL = {}
+
+
+def failure_results(repo, tier="quick"):
+    key = (repo.root, tier)
+    if key not in _FAIL:
+        out = []
+        for r in parallel_map(_failure_job, failure_pairs()):
+            out.extend(r)
+        _FAIL[key] = out
+    return _FAIL[key]
